@@ -5365,3 +5365,57 @@ def round4_residue_rules(ctx):
                 ctx.violate('arg-flow|%s|subpath' % f.path, 'with_subpath does not append the whole path of `other` (appends %s): the ancestors of a subtree page inside its subtree are lost, and compaction cannot relocate it' % d, f, p.line)
         ctx.must_pass(f, ex, exits='any', what='the sub-path is appended')
         ctx.no_direct(f, ['Vec::push'], 'a single page number is not a path')
+
+
+def survey3_rules(ctx):
+    ctx.set_rule('C14.R5', 'the region tracker marks every affected order: free for all orders up to the given one, full from the given one upwards')
+    for pat, callee, start_zero in (('RegionTracker::mark_free', 'BtreeBitmap::clear', True), ('RegionTracker::mark_full', 'BtreeBitmap::set', False)):
+        f = ctx.fn(pat)
+        if f is None:
+            continue
+        s_ = core.sym(f)
+        p = ctx.sites(f, callee, exact=1)
+        if p:
+            ctx.each_iteration_passes(f, p, 'every order in the range is marked', 'order-skipped')
+            for q in p:
+                ctx.flows(f, q, 1, from_arg='region')
+        # the range: mark_free runs 0..=order, mark_full runs order..len
+        rng_ok = False
+        for b in f.blocks:
+            for st in b['s']:
+                if st[0] == 'a' and st[2]['k'] == 'agg' and str(st[2].get('a', '')).endswith(('ops::Range', 'ops::RangeInclusive')):
+                    t0 = s_.operand(st[2]['o'][0])
+                    if start_zero:
+                        rng_ok = rng_ok or (t0[0] == 'const' and str(t0[2]) == '0')
+                    else:
+                        rng_ok = rng_ok or (t0[0] != 'const')
+            t = b['t']
+            if t['k'] == 'call':
+                cs = core.CallSite(f, f.blocks.index(b), t)
+                if (cs.callee or '').endswith('RangeInclusive::<Idx>::new') or 'RangeInclusive' in (cs.callee or '') and (cs.callee or '').endswith('::new'):
+                    t0 = s_.operand(t['a'][0])
+                    if start_zero:
+                        rng_ok = rng_ok or (t0[0] == 'const' and str(t0[2]) == '0')
+        ctx.check(rng_ok, 'shape|%s|range-start' % f.path, '%s starts its range at %s' % (pat, '0' if start_zero else 'the given order'), f, f.line)
+    ctx.set_rule('C07.R13', 'a persistent savepoint is not released when its handle is dropped; an ephemeral one is')
+    f = ctx.fn('Savepoint::set_persistent')
+    if f is not None:
+        st = [p for p, s3 in _field_store_points(f, 'ephemeral') if s3[2]['k'] == 'use' and s3[2]['o'][0] == 'k' and s3[2]['o'][2] is False]
+        ctx.check(len(st) == 1, 'floor|%s|ephemeral-false' % f.path, 'set_persistent clears the ephemeral flag', f, f.line)
+        if st:
+            ctx.must_pass(f, st, exits='any')
+    f = ctx.fn('<Savepoint as Drop>::drop')
+    if f is not None:
+        dl = ctx.sites(f, TT + '::deallocate_savepoint', exact=1)
+        ctx.guarded(f, dl, [Guard(place='self.ephemeral', vals={'true'})], 'only an ephemeral savepoint is released on drop')
+        e_f = core.guard_edges(f, [Guard(place='self.ephemeral', vals={'false'})])
+        ctx.must_pass(f, dl, exits='any', extra_cut_edges=e_f, what='an ephemeral savepoint is always released on drop')
+    ctx.callers_eq('Savepoint::set_persistent', {WT + '::persistent_savepoint'})
+    ctx.set_rule('C14.R1', '')
+    f = ctx.fn('Allocators::resize_to')
+    if f is not None:
+        nw = ctx.sites(f, 'BuddyAllocator::new', exact=1)
+        pu = [cpoint(c) for c in f.calls_to('Vec::push')]
+        ctx.check(len(pu) >= 1, 'floor|%s|push' % f.path, 'a new region allocator is added to the list', f, f.line)
+        if nw and pu:
+            ctx.must_pass(f, pu, start=nw[0], exits='any', what='an allocator created for a new region is added to the list')
